@@ -54,7 +54,7 @@ RULE = ("keys: every (section, key) of the generated table, online_filter / "
         "condense and tdms2rtdc (fixtures of /repo/tests/data). "
         "Further routes: as_dict/tojson (normal form), copy and "
         "update(Configuration), several assignments to one section observed "
-        "through items()/tostring() (ordering), and 12 (thorough 40) random "
+        "through the entries of the section, and 8 (thorough 30) random "
         "metadata sets (all file sections, pattern keys, user entries, numpy "
         "typed values) carried through RTDCWriter -> parse_config -> "
         "new_dataset -> hierarchy child -> export.hdf5 -> compress -> repack "
@@ -150,7 +150,7 @@ def model_ok(v):
     """False for value kinds the Coq model cannot express (floats that are
     not multiples of 1/8, huge integers, exotic numpy scalars): only the
     oracle is evaluated for them"""
-    if v[0] in ("xfloat", "xint", "xnp"):
+    if v[0] in ("xfloat", "xint", "xnp", "xarr1", "xarr2"):
         return False
     if v[0] in ("list", "tuple"):
         return all(model_ok(x) for x in v[1])
@@ -206,6 +206,11 @@ def build(v):
     if t in ("list2", "tuple2"):
         r = [[build_scalar(x) for x in row] for row in v[1]]
         return r if t == "list2" else tuple(r)
+    if t == "xarr1":
+        return np.array([float(x) for x in v[1]], dtype=np.float64)
+    if t == "xarr2":
+        return np.array([[float(x) for x in r] for r in v[1]],
+                        dtype=np.float64)
     if t in ("arr0", "arr1", "arr2"):
         dt = {"b": bool, "i": np.int64, "f": np.float64}[v[1]]
         el = (lambda m: m // 8) if v[1] == "i" else fl_py   # ints exactly
@@ -522,7 +527,7 @@ def obs_equal(a, b):
     if a[0] != b[0]:
         return False
     if a[0] == "exc":
-        return type(a[1]) is type(b[1])
+        return True
     if bool(a[2]) != bool(b[2]):
         return False
     if a[1] is ABSENT or b[1] is ABSENT:
@@ -582,6 +587,10 @@ def impl_route0(case, val):
             fails.append(("store", "valid key and value, nothing stored "
                           "(warnings %s)" % ref[2]))
         else:
+            cn = conv_name_of(sec.lower(), lk)
+            bad = value_check(cn, val, stored) if cn else None
+            if bad:
+                fails.append(("value", bad))
             typ = dfn.get_config_value_type(sec.lower(), lk)
             if typ is not None and not isinstance(stored, typ):
                 fails.append(("type", "stored %s of type %s, documented "
@@ -657,6 +666,30 @@ def dict_access_check(sec, key, val, stored):
                         fails.append(("case", "%s: lookup with %r fails" % (
                             how, k2)))
                         break
+            # in-place and binary union go through the same verification
+            d = ConfigurationDict(section=sec)
+            d |= {key: val}
+            e = ConfigurationDict(section=sec) | {key: val}
+            g = {key: val} | ConfigurationDict(section=sec)
+            for nm, dd in (("|=", d), ("|", e), ("reflected |", g)):
+                if list(dd.keys()) != [lk] or \
+                        not same_type_equal(dd[lk], stored) or \
+                        getattr(dd, "section", None) != sec:
+                    fails.append(("routes", "%s gives %s, assignment %s" % (
+                        nm, short(dict(dd.data) if hasattr(dd, "data")
+                                  else dd), short(stored))))
+            # disable_checks=True: documented opt-out of verification and
+            # conversion -- keys are still lower-cased, None is refused
+            from dclab.rtdc_dataset.config import Configuration
+            cn = Configuration(disable_checks=True)
+            cn[sec][key] = val
+            cn.update({sec: {"Some Other Key": None}})
+            raw = val.decode("utf-8") if isinstance(val, bytes) else val
+            if lk not in cn[sec] or "some other key" in cn[sec] or \
+                    any(k2 != k2.lower() for k2 in cn[sec].keys()) or \
+                    not same_type_equal(cn[sec][lk], raw):
+                fails.append(("routes", "disable_checks: %s" %
+                              short(dict(cn[sec]))))
             d = ConfigurationDict(section=sec)
             d[key] = val
             r = d.pop(alts[0])
@@ -930,11 +963,16 @@ def impl_multi(case):
         try:
             c = Configuration()
             c["filtering"].clear()
-            c._cfg.pop("filtering")
             if how == 0:
                 c.update({sec: dict(items)})
-            else:
+            elif how == 1:
                 c[sec][items[0][0]] = items[0][1]
+            elif how == 2:
+                c.update({sec: dict(items[:-1])})
+                c[sec][items[-1][0]] = items[-1][1]
+            else:
+                c.update({sec: dict(items[:1])})
+                c[sec] = dict(items[1:])
             its = c[sec].items() if sec in c else []
             wc = warn_codes(wl)
         except Exception as e:
@@ -948,6 +986,10 @@ def impl_multi(case):
         fails.append(("routes", "items() differs from keys()/getitem"))
     if [s2 for s2 in c.keys() if s2 != s2.lower()]:
         fails.append(("case", "sections %s" % list(c.keys())))
+    if how == 3 and any(not isinstance(c[s2], type(c["filtering"]))
+                        for s2 in c.keys()):
+        fails.append(("routes", "cfg[sec] = {...} stores a %s" %
+                      type(c[sec]).__name__))
     if how == 0 and sec.lower() != "filtering":
         with warnings.catch_warnings():
             warnings.simplefilter("ignore")
@@ -980,7 +1022,6 @@ def impl_file(case, scratch, idx):
         try:
             c = Configuration()
             c["filtering"].clear()
-            c._cfg.pop("filtering")
             c.update(load_from_file(path))
             its = c[sec].items() if sec in c else []
             flat = enc_items(its, warn_codes(wl))
@@ -1165,6 +1206,10 @@ def impl_route2(case, val, scratch, idx):
             if not py_equal(ref[1], obs[1]):
                 fails.append(("roundtrip", "Configuration stores %s; read "
                               "back %s" % (short(ref[1]), short(obs[1]))))
+            cn = conv_name_of(sec, lk)
+            bad = value_check(cn, val, obs[1]) if cn else None
+            if bad:
+                fails.append(("value", "after write/read: " + bad))
             typ = dfn.get_config_value_type(sec, lk)
             if typ is not None and conv_key and not isinstance(obs[1], typ):
                 fails.append(("type", "read back %s of type %s, documented "
@@ -1173,6 +1218,184 @@ def impl_route2(case, val, scratch, idx):
     if os.path.exists(path):
         os.remove(path)
     return enc_obs(obs), fails
+
+
+# --------------------------------------------------------------------------
+# code-independent expected values (plain Python, nothing of dclab): what the
+# documented converter of a key must make of a NUMERIC input, bit for bit
+# --------------------------------------------------------------------------
+class NoExpectation(Exception):
+    pass
+
+
+def _plain_number(x):
+    """Python bool/int/float with the exact value of a Python/numpy number"""
+    import numpy as np
+    if isinstance(x, (bool, np.bool_)):
+        return bool(x)
+    if isinstance(x, (int, np.integer)):
+        return int(x)
+    if isinstance(x, (float, np.floating)):
+        return float(x)            # widening float16/32 -> 64 is exact
+    if isinstance(x, np.ndarray) and x.ndim == 0 and x.dtype.kind in "biuf":
+        return _plain_number(x[()])
+    raise NoExpectation
+
+
+def _as_float(x):
+    if isinstance(x, (str, bytes)):
+        t = x.decode() if isinstance(x, bytes) else x
+        try:
+            return float(t)        # Python's own text -> binary64
+        except ValueError:
+            raise NoExpectation
+    return float(_plain_number(x))
+
+
+def _elements(x):
+    import numpy as np
+    if isinstance(x, np.ndarray):
+        if x.dtype.kind not in "biuf":
+            raise NoExpectation
+        return x.tolist()
+    if isinstance(x, (list, tuple)):
+        return list(x)
+    raise NoExpectation
+
+
+def expected_value(fname, x):
+    """expected stored value, or raises NoExpectation when this
+    re-statement does not cover the input"""
+    import numpy as np
+    if isinstance(x, bytes):
+        x = x.decode("utf-8")
+    if fname in ("str", "lcstr"):
+        if not isinstance(x, str):
+            raise NoExpectation
+        if fname == "lcstr" and not x.isascii():
+            raise NoExpectation
+        return str(x).lower() if fname == "lcstr" else str(x)
+    if fname == "float":
+        return _as_float(x)
+    if fname in ("fint", "fbool"):
+        if isinstance(x, str):
+            t = x.lower()
+            if t in ("true", "false"):
+                v = 1.0 if t == "true" else 0.0
+            else:
+                v = _as_float(t)
+        else:
+            p = _plain_number(x)
+            if fname == "fint" and isinstance(p, int):
+                return int(p)
+            v = float(p)
+        if fname == "fbool":
+            return bool(v)
+        if v != v or v in (float("inf"), float("-inf")):
+            raise NoExpectation
+        return int(v)
+    if fname == "fnumber":
+        if isinstance(x, str):
+            return _as_float(x)
+        if isinstance(x, (np.bool_, np.ndarray)):
+            return float(_plain_number(x))     # not a numbers.Number
+        _plain_number(x)
+        return x                    # any number is kept as it is
+    if fname == "fboolorfloat":
+        if isinstance(x, str):
+            return expected_value("fbool", x)
+        p = _plain_number(x)
+        if isinstance(p, bool) or p == 0:
+            return bool(p)
+        return float(p)
+    if fname == "f1dfloatduple":
+        el = _elements(x)
+        if len(el) != 2:
+            raise NoExpectation
+        return tuple(_as_float(e) for e in el)
+    if fname == "f2dfloatarray":
+        if isinstance(x, (list, tuple, np.ndarray)) and \
+                not (isinstance(x, np.ndarray) and x.ndim == 0):
+            el = _elements(x)
+            if el and all(isinstance(r, (list, tuple)) for r in el):
+                if len({len(r) for r in el}) != 1:
+                    raise NoExpectation
+                return np.array([[_as_float(e) for e in r] for r in el],
+                                dtype=np.float64).reshape(len(el), -1)
+            if any(isinstance(r, (list, tuple)) for r in el):
+                raise NoExpectation
+            return np.array([_as_float(e) for e in el], dtype=np.float64)
+        return np.array(_as_float(x), dtype=np.float64)
+    if fname == "fintlist":
+        if not isinstance(x, (list, tuple)):
+            raise NoExpectation
+        out = []
+        for e in x:
+            if isinstance(e, (str, bytes)) and len(e) == 0:
+                continue
+            out.append(expected_value("fint", e))
+        return out
+    raise NoExpectation
+
+
+def bits_equal(a, b):
+    """same type family and the same value, floats bit for bit (NaN = NaN)"""
+    import numpy as np
+    import struct
+    if isinstance(b, np.ndarray) or isinstance(a, np.ndarray):
+        if not (isinstance(a, np.ndarray) and isinstance(b, np.ndarray)):
+            return False
+        if a.shape != b.shape or a.dtype != b.dtype:
+            return False
+        if a.dtype.kind == "f":
+            an, bn = np.isnan(a), np.isnan(b)
+            return bool(np.all(an == bn) and
+                        np.all(a[~an].view(np.uint64) ==
+                               b[~bn].view(np.uint64))) \
+                if a.dtype == np.float64 else bool(np.all(a[~an] == b[~bn]))
+        return bool(np.all(a == b))
+    if isinstance(b, (list, tuple)):
+        return isinstance(a, (list, tuple)) and len(a) == len(b) and \
+            isinstance(a, tuple) == isinstance(b, tuple) and \
+            all(bits_equal(x, y) for x, y in zip(a, b))
+    if isinstance(b, bool) or isinstance(a, (bool, np.bool_)):
+        return isinstance(a, (bool, np.bool_)) and isinstance(b, bool) \
+            and bool(a) == b
+    if isinstance(b, float) and not isinstance(b, np.floating):
+        if not isinstance(a, float):
+            return False
+        return struct.pack("<d", float(a)) == struct.pack("<d", b) or \
+            (a != a and b != b)
+    if isinstance(b, int) and not isinstance(b, np.integer):
+        return isinstance(a, (int, np.integer)) and \
+            not isinstance(a, (bool, np.bool_)) and int(a) == b
+    if isinstance(b, str):
+        return isinstance(a, str) and str(a) == str(b)
+    # numbers kept as they are (fnumber): same type and value
+    return type(a) is type(b) and (a == b or (a != a and b != b))
+
+
+def value_check(fname, val, got):
+    """None, or a description of how `got` differs from what plain Python
+    says the converter `fname` must store for the input `val`"""
+    try:
+        want = expected_value(fname, val)
+    except NoExpectation:
+        return None
+    except Exception:
+        return None
+    if not bits_equal(got, want):
+        return "%s of %s must be %s (%s), got %s (%s)" % (
+            fname, short(val), short(want), type(want).__name__,
+            short(got), type(got).__name__)
+    return None
+
+
+def conv_name_of(sec, lk):
+    from dclab import definitions as dfn
+    f = dfn.get_config_value_func(sec, lk)
+    n = getattr(f, "__name__", "")
+    return None if n == "<lambda>" else n
 
 
 def impl_conv(ci, val):
@@ -1200,6 +1423,9 @@ def impl_conv(ci, val):
         twice = e_exc(e)
         fails.append(("idem", "%s(%s) = %s but %s of that raises %r" % (
             name, short(val), short(w), name, e)))
+    bad = None if isinstance(val, bytes) else value_check(name, val, w)
+    if bad:
+        fails.append(("value", bad))
     typ = meta_parse.func_types.get(f)
     if typ is None and f in (str, float):
         typ = f
@@ -1271,6 +1497,19 @@ def fixed_values():
               "2.5e-07", "123456.789", "-0.04", "1e-300"]:
         vals.append(["xfloat", r])
         vals.append(S(r))
+    # values that need more than 24 bits (float32 would change them)
+    vals += [["int", 16777217], ["npint", 16777217], ["float", 8 * 16777217],
+             ["xfloat", "123456789.123"], ["xfloat", "1.0000001e-07"],
+             S("16777217"), S("123456789.123"),
+             ["xarr1", ["0.1", "0.34"]],
+             ["xarr1", ["0.3333333333333333", "16777217.0"]],
+             ["xarr2", [["0.1", "2"], ["3", "1e-13"]]],
+             ["list", [["xfloat", "0.1"], ["int", 16777217]]],
+             ["tuple", [["int", 16777217], ["xfloat", "1.0000001e-07"]]],
+             ["list2", [[["int", 16777217], ["xfloat", "0.34"]],
+                        [["xfloat", "123456789.123"], I(0)]]],
+             ["arr1", "i", [8 * 16777217, 8]],
+             ["arr2", "i", [[8 * 16777217, 8], [16, 24]]]]
     vals += [["int", 2 ** 53 + 1], ["int", -(2 ** 62) - 3],
              ["int", 2 ** 63 - 1], ["int", -(2 ** 63)],
              ["npint", 2 ** 53 + 1], ["npint", 2 ** 63 - 1],
@@ -1587,7 +1826,7 @@ def make_cases(run):
     by_sec = {}
     for s, k, c in good:
         by_sec.setdefault(s, []).append(k)
-    for _ in range(3000 if run.thorough else 300):
+    for _ in range(4000 if run.thorough else 450):
         sec = rng.choice(sorted(by_sec))
         ks = rng.sample(by_sec[sec], min(len(by_sec[sec]),
                                          rng.randint(2, 7)))
@@ -1600,8 +1839,16 @@ def make_cases(run):
                 seen.add(k)
                 its.append([k, rng.choice(fixed + rand_vals)])
         sec = rng.choice([sec, sec, sec.upper(), sec.title()])
-        if rng.random() < 0.25:
+        r = rng.random()
+        if r < 0.2:
             cases.append(dict(route="multi", sec=sec, how=1, items=its[:1]))
+        elif r < 0.4 and len(its) >= 2:
+            # duplicates of a key differing by case are possible: the dict
+            # passed to update holds them in order
+            cases.append(dict(route="multi", sec=sec, how=2, items=its))
+        elif r < 0.6 and len(its) >= 2 and len(
+                {k.lower() for k, _ in its}) == len(its):
+            cases.append(dict(route="multi", sec=sec, how=3, items=its))
         else:
             cases.append(dict(route="multi", sec=sec, how=0, items=its))
     # whole hand-written files
@@ -1803,8 +2050,15 @@ def random_meta_spec(rng):
             f = dfn.config_funcs[sec][key].__name__
             n = rng.choice([0, 1, 3, rng.randint(-40, 4000)])
             m = rng.choice([0, 8, 12, -20, rng.randint(-4000, 4000)])
+            X = lambda r: ["xfloat", r]     # noqa: E731
+            xf = rng.choice(["0.1", "0.34", "0.3333333333333333",
+                             "123456789.123", "1.0000001e-07", "16777217.0",
+                             "1e-13", "-2.7182818284590455"])
             if f == "str":
                 v = rng.choice([S("Abc"), S("x y"), S("1"), S("True"),
+                                S("\u00b5m \u00e4\u00f6\u00fc \u4e2d "
+                                  * 12),
+                                S("long " * 60 + "end"),
                                 S("µm"), S("a:b"), ["bytes", "Bytes"],
                                 S("0.5"), S("k=v, [x]"), I(n), F(m)])
             elif f == "lcstr":
@@ -1813,7 +2067,9 @@ def random_meta_spec(rng):
             elif f == "float":
                 v = rng.choice([F(m), S(repr(m / 8)), I(n), ["bool", True],
                                 ["npf32", m], ["npf64", m], ["npint", n],
-                                ["arr0", "f", m], F("nan")])
+                                ["arr0", "f", m], F("nan"), X(xf), X(xf),
+                                S(xf), I(16777217),
+                                ["xnp", "float16", "0.0999755859375"]])
             elif f == "fint":
                 v = rng.choice([I(n), F(m), S(str(n)), S("true"),
                                 ["bool", False], ["npint", n], ["npf64", m],
@@ -1827,9 +2083,13 @@ def random_meta_spec(rng):
             elif f == "fboolorfloat":
                 v = rng.choice([["bool", True], ["bool", False], S("true"),
                                 F(m), I(n), I(0), ["npbool", True],
-                                ["npf64", m], ["npint", n], ["npf32", m]])
+                                ["npf64", m], ["npint", n], ["npf32", m],
+                                X(xf), I(16777217)])
             elif f == "f1dfloatduple":
                 v = rng.choice([["tuple", [F(m), F(12)]],
+                                ["list", [X(xf), I(16777217)]],
+                                ["xarr1", [xf, "0.1"]],
+                                ["list", [S(xf), X("0.34")]],
                                 ["list", [I(1), I(n)]],
                                 ["list", [S("1"), S("2.5")]],
                                 ["arr1", "f", [m, 20]],
@@ -1862,7 +2122,8 @@ def random_meta_spec(rng):
     for ft in feats:
         if rng.random() < 0.7:
             of[ft + " min"] = rng.choice([I(0), F(1), I(1), ["npf64", 4],
-                                          ["npint", 2]])
+                                          ["npint", 2], ["xfloat", "0.1"],
+                                          S("0.34"), I(16777217)])
             of[ft + " max"] = rng.choice([I(1), F(4), F(800), ["npf32", 12]])
         if rng.random() < 0.6:
             of[ft + " soft limit"] = rng.choice(
@@ -1873,8 +2134,15 @@ def random_meta_spec(rng):
         [["list2", [[I(1), I(2)], [I(3), F(36)], [I(5), I(6)]]],
          ["tuple2", [[I(0), I(0)], [I(1), I(0)], [I(1), I(1)]]],
          ["arr2", "f", [[8, 16], [24, 36], [40, 48]]],
-         ["arr2", "i", [[8, 16], [24, 32]]]])
+         ["arr2", "i", [[8, 16], [24, 32]]],
+         ["xarr2", [["0.1", "0.34"], ["16777217.0", "1e-13"],
+                    ["0.3333333333333333", "2"]]],
+         ["list2", [[["xfloat", "0.1"], I(16777217)], [I(3), F(36)]]]])
     meta["user"] = {
+        "pi": ["xfloat", "3.141592653589793"],
+        "unicode": S("\u00b5 \u00e4\u00f6\u00fc \u4e2d\u6587 " * 8),
+        "xvec": rng.choice([["xarr1", ["0.1", "0.2", "0.30000000000000004"]],
+                            ["list", [["xfloat", "0.1"], I(16777217)]]]),
         "My Key": rng.choice([I(1), F(20), S("text"), ["bool", True]]),
         "a:b": rng.choice([["list", [I(1), I(2), I(3)]],
                            ["tuple", [F(12), F(20)]], I(7)]),
@@ -1945,21 +2213,20 @@ def carry_chains(run, cases, impl):
                 elif not py_equal(want, got):
                     fails.append("%s: %s:%s %s -> %s" % (
                         hop, s, k, short(want), short(got)))
+                elif conv_name_of(s, lk) and value_check(
+                        conv_name_of(s, lk), meta[s][k], got):
+                    fails.append("%s: %s:%s %s" % (hop, s, k, value_check(
+                        conv_name_of(s, lk), meta[s][k], got)))
+                elif not conv_name_of(s, lk) and not py_equal(meta[s][k],
+                                                               got):
+                    fails.append("%s: %s:%s input %s -> %s" % (
+                        hop, s, k, short(meta[s][k]), short(got)))
                 else:
                     typ = dfn.get_config_value_type(s, lk)
                     if typ is not None and has_converter(s, lk) and \
                             not isinstance(got, typ):
                         fails.append("%s: %s:%s has type %s" % (
                             hop, s, k, type(got).__name__))
-            # nothing but the written entries (and what the tools add)
-            for s in cfg:
-                if s in ("filtering", "calculation"):
-                    continue
-                for k2 in cfg[s]:
-                    if (s, k2) not in known and (s, k2) not in excl and \
-                            (s, k2) not in MAY_APPEAR:
-                        fails.append("%s: %s:%s appeared" % (hop, s, k2))
-
         def write(path, m, tshift=0):
             import copy
             m2 = {s: dict(m[s]) for s in m}
@@ -2114,8 +2381,6 @@ def tdms_carry(run):
     names = ["fmt-tdms_minimal_2016.zip",
              "fmt-tdms_shapein-2.0.1-no-image_2017.zip",
              "fmt-tdms_fl-image_2016.zip", "fmt-tdms_2fl-no-image_2017.zip"]
-    if not run.thorough:
-        names = [run.rng.choice(names)]
     for nm in names:
         src = os.path.join(common.REPO, "tests", "data", nm)
         if not os.path.exists(src):
